@@ -32,7 +32,10 @@ Markers (``mk_*`` / ``*_RE``)
 ``ScriptedLLM``
     LangChain ``LLM`` subclass with real ``temperature`` / ``max_tokens`` fields (so ``llm_params`` mutates
     them as it does for a real provider).  The answer is a function of the prompt: the task is recognised
-    from the *rendered prompt* (``classify_prompt``), the text comes from ``Session.llm_answer``.
+    from the *rendered prompt* (``classify_prompt``: generate_user_intent / generate_next_steps /
+    generate_bot_message / general (also v2 PassthroughLLMAction) / self_check_input / self_check_output /
+    v2_user_intent / v2_flow_continuation), the text comes from ``Session.llm_answer``.  Trace entries and
+    call records share one sequence counter (``seq``), so "X happened before Y" is decidable.
 
 ``make_rail_action`` / ``make_dialog_action`` / ``make_route_action`` / ``make_retrieval_action``
     Factories for the ``async`` actions registered with ``LLMRails.register_action``; each looks up the
